@@ -18,6 +18,7 @@ def main():
     ap.add_argument('prop')
     ap.add_argument('--tier', default=os.environ.get('VERIF_TIER') or 'quick', choices=['quick', 'thorough'])
     ap.add_argument('--replay')
+    ap.add_argument('--replay-mode', default='auto', choices=['auto', 'case', 'block', 'history'])
     ap.add_argument('--quiet', action='store_true')
     ap.add_argument('--family', action='append')
     ap.add_argument('--jobs', type=int)
@@ -34,7 +35,7 @@ def main():
 
     try:
         if args.replay:
-            return core.replay(args.prop, args.replay, quiet=args.quiet)
+            return core.replay(args.prop, args.replay, quiet=args.quiet, mode=args.replay_mode)
         seed = int(os.environ.get('VERIF_SEED') or 0)
         evidence, lines, bad = core.run_check(args.prop, args.tier, seed, only=args.family, jobs=args.jobs)
         if not args.no_evidence and not args.family:
